@@ -1,9 +1,10 @@
 #!/bin/sh
 # every seeded change against its own check (scratch copy; nothing is written under /verif/evidence); one line per seed
 cd "$(dirname "$0")/.."
-for id in C01 C02 C03 C04 C05 C06 C07 C08 C09 C10 C11 C12 C13 C14 C15 C16 C17 C18 C19 C20; do
+for id in $(ls seeded | sort); do
+  chk=${id%%-*}
   d=$(tools/apply_seed.sh $id) || { echo "$id: patch does not apply"; continue; }
-  out=$(IXAI_REPO=$d ./check $id 2>&1); rc=$?
+  out=$(IXAI_REPO=$d ./check $chk 2>&1); rc=$?
   ded=$(echo "$out" | grep "failed:" | grep -vc "bounded:")
   bnd=$(echo "$out" | grep "failed:" | grep -c "bounded:")
   echo "$id rc=$rc deductive_failures=$ded bounded_failures=$bnd $(echo "$out" | grep -E 'UNSUPPORTED|CHECKER-ERROR|UNDECIDED' | head -2 | tr '\n' ' ' | cut -c1-200)"
